@@ -21,12 +21,13 @@ from ..treeutil import K, dump
 PROP = "C03"
 LEVEL = "exploration"
 
-CONT = ["x", "{{t|a}}", "[[l|m]]", "'''b'''", "''i''", '<span class="c">s</span>', "a!b", "x y", "{{lc:X}}", "{{#if:x|y}}", "x=1", "{{t|k=v}}", "{{#if:x|a!!b}}", "{{{p|c!!d}}}"]
+CONT = ["x", "{{t|a}}", "[[l|m]]", "'''b'''", "''i''", '<span class="c">s</span>', "a!b", "x y", "{{lc:X}}", "{{#if:x|y}}", "x=1", "{{t|k=v}}", "{{#if:x|a!!b}}", "{{{p|c!!d}}}",
+        "[[l]] | m", "<b>n</b> | o"]
 ATTRS = [{}, {"class": "c"}, {"style": "s-1", "id": "i2"}, {"class": "a b"}]
 HTML_SKIP = {"pre", "nowiki", "section", "noinclude", "includeonly", "onlyinclude", "math", "chem", "ce", "hiero", "score",
              "syntaxhighlight", "source", "templatestyles", "timeline", "gallery", "imagemap", "inputbox", "poem"}
 URLS = ["http://x.y/a.", "https://x.y/?q=1&r=2,", "//x.y/p!", "ftp://x.y/a?", "http://x.y/a_(b)", "mailto:a@b.org", "http://x.y/a;b"]
-ARG_ATOMS = ["text", " pad ", "{{c|1}}", "[[n]]", "k=v", "", "a b", "x:y", "2", "\n x=1", "\n* b", "\n", ":c", "[[n]]\n q", "{{lc:X}}", "{{#if:x|y|z}}"]
+ARG_ATOMS = ["text", " pad ", "{{c|1}}", "[[n]]", "k=v", "", "a b", "x:y", "2", "\n x=1", "\n* b", "\n", ":c", "[[n]]\n q", "{{lc:X}}", "{{#if:x|y|z}}", "a\n----\nb"]
 
 
 def attrstr(a, quote='"'):
@@ -168,6 +169,14 @@ def html_cases(ctx):
         if tag in HTML_SKIP:
             continue
         void = bool(ctx.allowed_html_tags[tag].get("no-end-tag"))
+        # unquoted values, and "/>" directly after the last one (<ref name=x/>, <br clear=all/>)
+        for am in ATTRS[1:3]:
+            a = " " + attrstr(am, "")
+            yield tag, am, None, "<%s%s/>" % (tag, a)
+            if void:
+                yield tag, am, None, "<%s%s>" % (tag, a)
+            else:
+                yield tag, am, "x", "<%s%s>x</%s>" % (tag, a, tag)
         for am, quote in itertools.product(ATTRS, ('"', "'")):
             if void:
                 yield tag, am, None, "<%s%s>" % (tag, " " + attrstr(am, quote) if am else "")
@@ -430,7 +439,7 @@ def main(run):
     cov = {
         "distinct_nontrivial": len(run.acc.sets.get("inputs", ())),
         "rule": "tables: rows x columns in 1..%d, newline / inline (|| !!) separators, 4 caption forms, 3 table x 2 row x 4 cell attribute "
-                "maps, 3 header patterns, affine content assignments cell(i,j)=K[(a+b*i+c*j) mod 14] over 14 contents (text, template, two colon-form parser functions, text and a template argument with '=', "
+                "maps, 3 header patterns, affine content assignments cell(i,j)=K[(a+b*i+c*j) mod 16] over 16 contents (text, template, two colon-form parser functions, text and a template argument with '=', "
                 "piped link, bold, italic, inline HTML, text with '!', two words); the full product of contents for 2x2 grids; every "
                 "paired and void tag of the allowed-HTML table (special-purpose tags excluded) x 4 attribute maps x 2 quote styles x 6 "
                 "contents; every ordered pair (outer, inner) of those tags where the declared parents/content data permit the nesting, "
